@@ -60,6 +60,7 @@ Lemma named_paths_covers w : forall ids orig,
   named_paths T ids w = Val (OK orig, w) ->
   forall x n p, In x ids -> w_nodes w x = Some n -> is_named T (n_type n) = Val true ->
                 path_of T n w = Val (OK p, w) -> In (p, x) orig.
+(* (when the snapshot was computed at all, path_of returned a value for every named element: named_paths_val) *)
 Proof.
   induction ids as [|i ids IH]; intros orig H x n p Hin Hn Hnamed Hp; [destruct Hin|].
   cbn [named_paths] in H. wk H. apply get_node_inv in E as (ni & Hni & Q & _). injection Q as ->.
@@ -86,6 +87,359 @@ Proof.
   wk H. destruct a as [ex|].
   - eapply IH. exact H.
   - apply wret_inv in H as ([= -> ->] & _). exact E.
+Qed.
+
+Lemma named_paths_val w : forall ids orig,
+  named_paths T ids w = Val (OK orig, w) ->
+  forall x n, In x ids -> w_nodes w x = Some n -> is_named T (n_type n) = Val true ->
+              exists r0, path_of T n w = Val (r0, w).
+Proof.
+  induction ids as [|i ids IH]; intros orig H x n Hin Hn Hnamed; [destruct Hin|].
+  cbn [named_paths] in H. wk H. apply get_node_inv in E as (ni & Hni & Q & _). injection Q as ->.
+  wk H. apply wl_inv in E as (b & Hb & Q & _). injection Q as ->.
+  wk H. destruct Hin as [<-|Hin]; [|eapply IH; eauto].
+  assert (ni = n) by congruence. subst ni. assert (b = true) by congruence. subst b.
+  wk H. match goal with E : wtry _ _ = _ |- _ => apply wtry_inv in E as (r0 & Er & Q) end. eauto.
+Qed.
+
+(* conversely: the walk lists only elements of the subtree *)
+Lemma dfs_sound f : forall a w ids, dfs_ids f a w = Val (OK ids, w) -> forall x, In x ids -> creach w a x.
+Proof.
+  induction f as [|f IH]; intros a w ids H x Hx; [discriminate H|]. cbn [dfs_ids] in H.
+  wk H. apply get_node_inv in E as (n & Hn & Q & _). injection Q as ->.
+  wk H. apply wret_inv in H as ([= ->] & _). destruct Hx as [<-|Hx]; [constructor|].
+  match type of E with ?kids _ _ = _ =>
+    assert (Hk : forall l rest w0, kids l w = Val (OK rest, w0) -> w0 = w /\
+                 forall y, In y rest -> exists c0, In (CElem c0) l /\ creach w c0 y) end.
+  { clear - IH. induction l as [|[c1|d] l IHl]; intros rest w0 H.
+    - apply wret_inv in H as ([= ->] & ->). split; [reflexivity|intros y []].
+    - wk H. wk H. destruct (IHl _ _ E0) as (-> & IHc).
+      apply wret_inv in H as ([= ->] & ->). split; [reflexivity|]. intros y Hy. apply in_app_or in Hy as [Hy|Hy].
+      + exists c1. split; [left; reflexivity|]. eapply IH; eauto.
+      + destruct (IHc y Hy) as (c0 & H1 & H2). exists c0. split; [right; exact H1|exact H2].
+    - destruct (IHl _ _ H) as (-> & IHc). split; [reflexivity|]. intros y Hy.
+      destruct (IHc y Hy) as (c0 & H1 & H2). exists c0. split; [right; exact H1|exact H2]. }
+  destruct (Hk _ _ _ E) as (-> & Hk2). destruct (Hk2 x Hx) as (c0 & H1 & H2).
+  econstructor; [|exact H2]. exists n. split; assumption.
+Qed.
+
+Lemma creach_reach w a x : creach w a x -> reach T w a x.
+Proof.
+  induction 1 as [a|a c x Hc Hr IH]; [apply reach_refl|].
+  eapply reach_trans; [|exact IH]. eapply reach_step; [apply reach_refl|exact Hc].
+Qed.
+
+(* every entry of the snapshot is the path of an element of the walk *)
+Lemma named_paths_sound w : forall ids orig,
+  named_paths T ids w = Val (OK orig, w) ->
+  forall p x, In (p, x) orig -> In x ids /\ exists n, w_nodes w x = Some n /\ path_of T n w = Val (OK p, w).
+Proof.
+  induction ids as [|i ids IH]; intros orig H p x Hin.
+  - apply wret_inv in H as ([= ->] & _). destruct Hin.
+  - cbn [named_paths] in H. wk H. apply get_node_inv in E as (ni & Hni & Q & _). injection Q as ->.
+    wk H. apply wl_inv in E as (b & Hb & Q & _). injection Q as ->.
+    wk H. match goal with E : named_paths T ids w = Val (OK ?r, w) |- _ => rename E into Erest; rename r into rest end.
+    assert (Hrest : In (p, x) rest -> In x (i :: ids) /\ exists n, w_nodes w x = Some n /\ path_of T n w = Val (OK p, w)).
+    { intros Hr. destruct (IH _ Erest p x Hr) as (H1 & H2). split; [right; exact H1|exact H2]. }
+    destruct b.
+    + wk H. match goal with E : wtry _ _ = _ |- _ => apply wtry_inv in E as (r0 & Er & Q) end.
+      injection Q as ->. apply wret_inv in H as ([= ->] & _).
+      destruct r0 as [p0|e0]; [|auto]. destruct Hin as [[= <- <-]|Hin]; [|auto].
+      split; [left; reflexivity|]. exists ni. split; [exact Hni|].
+      exact Er.
+    + apply wret_inv in H as ([= ->] & _). auto.
+Qed.
+
+(* the inner loop of the move: every referrer of the list gets the new text (each write is validated and succeeded) *)
+Section InnerMove.
+Variable loop : list id -> W unit.
+Variable p' : list N.
+Variable version : N.
+Hypothesis loop_nil : loop [] = wret tt.
+Hypothesis loop_cons : forall re rr,
+  loop (re :: rr) = (raw_set_character_data T check_fn re (DString p') version;; loop rr)%W.
+
+Lemma inner_sem_move : forall rl w w',
+  loop rl w = Val (OK tt, w') ->
+  w_next w' = w_next w /\ w_files w' = w_files w /\ w_models w' = w_models w /\
+  (forall i, In i rl -> w_nodes w' i = option_map (rewrite_head p') (w_nodes w i)) /\
+  (forall i, ~ In i rl -> w_nodes w' i = w_nodes w i).
+Proof.
+  induction rl as [|re rr IH]; intros w w' H.
+  - rewrite loop_nil in H. apply wret_inv in H as (_ & ->). repeat split; auto. intros i [].
+  - rewrite loop_cons in H. apply wbind_inv in H as [(u & w1 & E & H)|(e & _ & [=])]. destruct u.
+    destruct (raw_set_cd_ok T check_fn _ _ _ _ _ E) as (rn & cs & Hrn & _ & _ & ->).
+    assert (Hrw : set_content rn (match n_content rn with [] => [CData (DString p')] | _ :: r => CData (DString p') :: r end)
+                  = rewrite_head p' rn).
+    { unfold rewrite_head. destruct (n_content rn); reflexivity. }
+    rewrite Hrw in H.
+    destruct (IH _ _ H) as (H1 & H2 & H3 & H4 & H5). cbn [w_next w_files w_models w_nodes] in *.
+    repeat split; auto.
+    + intros i [<-|Hi].
+      * destruct (in_dec N.eq_dec re rr) as [Hin|Hnin].
+        -- rewrite H4 by exact Hin. rewrite upd_eq, Hrn. reflexivity.
+        -- rewrite H5 by exact Hnin. rewrite upd_eq, Hrn. reflexivity.
+      * rewrite H4 by exact Hi. destruct (N.eq_dec i re) as [->|Hne].
+        -- rewrite upd_eq, Hrn. reflexivity.
+        -- rewrite upd_neq by exact Hne. reflexivity.
+    + intros i Hi. rewrite H5 by (intros Hx; apply Hi; right; exact Hx).
+      apply upd_neq. intros ->. apply Hi. left. reflexivity.
+Qed.
+End InnerMove.
+
+(* ---------- move_element_local, the moved element identifiable ---------- *)
+Lemma no_self_parent w i n : TreeFacts w -> w_nodes w i = Some n -> n_parent n <> PElem i.
+Proof.
+  intros HT Hn Hp. destruct (tf_depth _ HT i n Hn) as (h & Hd).
+  assert (Hd2 : pdepth w i (S h)) by (econstructor; eauto).
+  pose proof (pdepth_fun w i _ Hd _ Hd2). lia.
+Qed.
+
+Lemma ref_text_content w i p ni :
+  ref_text T w i = Some p -> w_nodes w i = Some ni -> n_content ni = [CData (DString p)] /\ isref T (n_type ni) = true.
+Proof.
+  intros Hr Hn. unfold ref_text in Hr. rewrite Hn in Hr. destruct (isref T (n_type ni)); [|discriminate].
+  split; [|reflexivity]. unfold cdata_of, character_data in Hr.
+  destruct (n_content ni) as [|[c|d] [|y tl0]]; try discriminate.
+  destruct (content_mode T (n_type ni)) as [mode| |]; cbn in Hr; try discriminate.
+  destruct ((mode =? MCharacters) || (mode =? MMixed)); [|discriminate].
+  destruct d; try discriminate. injection Hr as ->. reflexivity.
+Qed.
+
+(* identifiable-by-structure depends on the node's type and content and on the element NAMES of the heap only *)
+Lemma identifiable_n_same w w2 n n2 :
+  (forall i, option_map n_name (w_nodes w2 i) = option_map n_name (w_nodes w i)) ->
+  n_type n2 = n_type n -> n_content n2 = n_content n ->
+  identifiable_n T w2 n2 = identifiable_n T w n.
+Proof.
+  intros Hnames Hty Hct. unfold identifiable_n, short_child. rewrite Hty, Hct.
+  destruct (n_content n) as [|[s|d] rest]; try reflexivity.
+  specialize (Hnames s). destruct (w_nodes w2 s) as [a|], (w_nodes w s) as [b|]; cbn in Hnames; try discriminate; [|reflexivity].
+  injection Hnames as ->. destruct (n_name b =? name_short_name T); reflexivity.
+Qed.
+
+(* what make_unique_item_name does when it succeeds: the chosen name gives a free path; only the SHORT-NAME element
+   (first child) may have been rewritten *)
+Lemma make_unique_ok i m pp w nm w3 :
+  make_unique_item_name T i m pp w = Val (OK nm, w3) ->
+  exists ni x, w_nodes w i = Some ni /\ model_at w m = Some x /\
+    assoc_get (pp ++ [47] ++ nm) (m_idents x) = None /\
+    w_models w3 = w_models w /\ w_next w3 = w_next w /\ w_files w3 = w_files w /\
+    (forall j, (forall s rest, n_content ni = CElem s :: rest -> j <> s) -> w_nodes w3 j = w_nodes w j) /\
+    (forall j, option_map n_name (w_nodes w3 j) = option_map n_name (w_nodes w j)).
+Proof.
+  intros H. unfold make_unique_item_name in H.
+  wk H. apply get_node_inv in E as (ni & Hni & Q & _). injection Q as ->.
+  wk H. destruct a as [orig|]; [|discriminate H].
+  wk H. apply get_model_inv in E0 as (x & Hx & Q & _). injection Q as ->.
+  wk H. destruct a as (name, counter).
+  apply unique_loop_free in E0. unfold get_element_by_path in E0. wk E0.
+  apply get_model_inv in E1 as (x2 & Hx2 & Q & _). injection Q as ->. assert (x2 = x) by congruence. subst x2.
+  apply wret_inv in E0 as ([= Hfree] & _).
+  wk H. apply wret_inv in H as ([= ->] & ->).
+  exists ni, x. split; [exact Hni|]. split; [exact Hx|]. split; [symmetry; exact Hfree|].
+  match goal with E : (if _ then _ else _) w = Val _ |- _ => rename E into E1 end.
+  destruct (1 <? counter).
+  - destruct (n_content ni) as [|[s|d] rest] eqn:Ec; try (apply wret_inv in E1 as (_ & ->); repeat split; auto).
+    apply modify_node_inv in E1 as (sn & Hs & _ & ->). cbn [w_models w_next w_files w_nodes]. repeat split; auto.
+    + intros j Hj. apply upd_neq. eapply Hj. reflexivity.
+    + intros j. unfold upd. destruct (j =? s) eqn:Ej; [|reflexivity]. apply N.eqb_eq in Ej. subst j. rewrite Hs. reflexivity.
+  - apply wret_inv in E1 as (_ & ->). repeat split; auto.
+Qed.
+
+Theorem move_local_ident self mv pos m version w w' r :
+  Inv06 T check_fn w ->
+  move_element_local T check_fn self mv pos m version w = Val (OK r, w') ->
+  MReach T w m mv -> identifiable T w mv = true ->
+  (forall n, w_nodes w self = Some n -> isref T (n_type n) = false) ->
+  exists src dest xm x',
+    SpecPath T w m mv src /\ model_at w m = Some xm /\ model_at w' m = Some x' /\
+    (forall k2 e, assoc_get k2 (m_idents x') = Some e <->
+       (exists k, rekey src dest k = Some k2 /\ assoc_get k (m_idents xm) = Some e)
+       \/ (rekey src dest k2 = None /\ assoc_get k2 (m_idents xm) = Some e)) /\
+    (forall rf p x, ref_text T w rf = Some p -> MReach T w m rf -> assoc_get p (m_idents xm) = Some x ->
+       reach T w mv x -> exists suf, p = src ++ suf /\ ref_text T w' rf = Some (dest ++ suf)) /\
+    (forall rf p, ref_text T w rf = Some p -> (~ MReach T w m rf \/ rekey src dest p = None) ->
+       ref_text T w' rf = Some p).
+Proof.
+  intros (HT & H4 & H5) H HRmv Hid Hselfref. unfold move_element_local in H.
+  wk H. apply get_node_inv in E as (n & Hn & Q & _). injection Q as ->.
+  wk H. apply wget_inv in E as ([= ->] & _).
+  wk H. destruct a; [discriminate H|].
+  wk H. apply get_node_inv in E0 as (mn & Hmn & Q & _). injection Q as ->.
+  wk H. destruct a as [src_parent|]; [|discriminate H].
+  wk H. wk H. wk H. destruct a1; [discriminate H|].
+  wk H. wk H.
+  match goal with E : dfs_ids _ mv w = Val (OK ?x, w) |- _ => rename E into Edfs; rename x into ids end.
+  match goal with E : named_paths T ids w = Val (OK ?x, w) |- _ => rename E into Enp; rename x into orig end.
+  match goal with E : path_unchecked T mn w = Val (OK ?x, w) |- _ => rename E into Esrc; rename x into src end.
+  match goal with E : path_unchecked T n w = Val (OK ?x, w) |- _ => rename E into Edst; rename x into dpre end.
+  match goal with E : parent_of mn w = _ |- _ => rename E into Epar end.
+  (* facts about the world before the move *)
+  destruct (path_unchecked_spec T w m mv mn HT Hmn HRmv) as (_ & Hps).
+  destruct (Hps _ _ Esrc) as (_ & (src0 & [= <-] & Hsp)).
+  assert (Hpar : n_parent mn = PElem src_parent).
+  { unfold parent_of in Epar. destruct (n_parent mn); try discriminate Epar.
+    apply wret_inv in Epar as ([= ->] & _). reflexivity. }
+  assert (Hmsp : mv <> src_parent) by (intros <-; exact (no_self_parent w mv mn HT Hmn Hpar)).
+  assert (Hidn : identifiable_n T w mn = true) by (unfold identifiable in Hid; rewrite Hmn in Hid; exact Hid).
+  pose proof Hidn as Hidn0. unfold identifiable_n in Hidn0. apply andb_true_iff in Hidn0 as (Hnamed & Hsc).
+  unfold short_child in Hsc. destruct (n_content mn) as [|[s|d0] rest0] eqn:Ecmn; try discriminate Hsc.
+  destruct (w_nodes w s) as [sn|] eqn:Hsn; [|discriminate Hsc].
+  destruct (n_name sn =? name_short_name T) eqn:Esn; [|discriminate Hsc]. apply N.eqb_eq in Esn. clear Hsc.
+  destruct (i4_short _ _ _ H4 s sn Hsn Esn) as (_ & Hsref & _).
+  pose proof (slashfree_names T w (i4_slash _ _ _ H4)) as HNS.
+  (* detach *)
+  wk H. rename E0 into Edet. unfold detach_from in Edet. wk Edet.
+  apply get_node_inv in E0 as (pn & Hpn & Q & _). injection Q as ->.
+  destruct (index_of (citem_is mv) (n_content pn)) as [kpos|] eqn:Eidx; [|discriminate Edet].
+  apply set_node_inv in Edet as (_ & ->).
+  (* re-parent *)
+  wk H. apply modify_node_inv in E0 as (n1 & Hn1 & _ & ->). cbn [w_nodes] in Hn1. rewrite upd_neq in Hn1 by exact Hmsp.
+  assert (n1 = mn) by congruence. subst n1. clear Hn1.
+  wk H. apply get_node_inv in E0 as (mn2 & Hmn2 & Q & _). injection Q as ->.
+  cbn [w_nodes] in Hmn2. rewrite upd_eq in Hmn2. injection Hmn2 as <-.
+  match type of H with wbind _ _ ?ww = _ => set (w2 := ww) in * end.
+  assert (Hw2m : w_models w2 = w_models w) by reflexivity.
+  assert (Hw2n : forall i, i <> mv -> i <> src_parent -> w_nodes w2 i = w_nodes w i).
+  { intros i H1 H2. unfold w2. cbn [w_nodes]. rewrite !upd_neq by assumption. reflexivity. }
+  assert (Hw2names : forall i, option_map n_name (w_nodes w2 i) = option_map n_name (w_nodes w i)).
+  { intros i. unfold w2. cbn [w_nodes]. unfold upd.
+    destruct (i =? mv) eqn:E1; [apply N.eqb_eq in E1; subst i; rewrite Hmn; reflexivity|].
+    destruct (i =? src_parent) eqn:E2; [apply N.eqb_eq in E2; subst i; rewrite Hpn; reflexivity|reflexivity]. }
+  (* the moved element is still identifiable *)
+  wk H. apply (is_identifiable_val T) in E0 as (_ & [= ->]).
+  rewrite (identifiable_n_same w w2 mn (set_parent mn (PElem self)) Hw2names eq_refl eq_refl), Hidn in H.
+  (* the unique name *)
+  wk H. wk E0. apply wret_inv in E0 as ([= ->] & ->).
+  match goal with E : make_unique_item_name _ _ _ _ _ = Val (OK ?x, _) |- _ => rename E into Emu; rename x into nm end.
+  destruct (make_unique_ok _ _ _ _ _ _ Emu) as (ni & xm & Hni & Hxm2 & Hfree & M1 & M2 & M3 & M4 & M5).
+  assert (ni = set_parent mn (PElem self)) by (unfold w2 in Hni; cbn [w_nodes] in Hni; rewrite upd_eq in Hni; congruence).
+  subst ni. cbn [set_parent n_content] in M4. rewrite Ecmn in M4.
+  assert (Hxm : model_at w m = Some xm) by (unfold model_at in *; rewrite <- Hw2m; exact Hxm2).
+  set (dest := dpre ++ [47] ++ nm) in *.
+  (* re-keying of the index *)
+  wk H. unfold fix_identifiables in E0. apply modify_model_inv in E0 as (xm1 & Hxm1 & _ & ->).
+  rewrite M1, Hw2m in Hxm1. assert (xm1 = xm) by (unfold model_at in Hxm; congruence). subst xm1.
+  destruct (rekey_all src dest (m_idents xm) (i4_nodup _ _ _ H4 m xm Hxm)) as (_ & Hget).
+  { eapply rekey_fresh; eauto.
+    - exact (i4_exact _ _ _ H4 m).
+    - unfold dest. intros Enil. apply app_eq_nil in Enil as (_ & Enil). discriminate Enil. }
+  (* the referrer loop *)
+  wk H. rename E0 into Eloop.
+  (* insertion into the destination *)
+  wk H. rename E0 into Eins. apply wret_inv in H as (_ & <-).
+  unfold content_insert in Eins. wk Eins. apply get_node_inv in E0 as (n5 & Hn5 & Q & _). injection Q as ->.
+  match type of Eins with (if ?b then _ else _) _ = _ => destruct b end; [discriminate Eins|].
+  apply set_node_inv in Eins as (_ & ->).
+  (* every key of the snapshot is the key of an element of the moved subtree *)
+  assert (Htodo : forall k, In k (map fst orig) ->
+            exists x, assoc_get k (m_idents xm) = Some x /\ reach T w mv x /\ old_form src k).
+  { intros k Hk. apply in_map_iff in Hk as ((k0 & x) & Hk0 & Hin). cbn in Hk0. subst k0.
+    destruct (named_paths_sound w ids orig Enp k x Hin) as (Hxi & nx & Hnx & Hpx).
+    assert (Hrx : reach T w mv x) by (apply creach_reach; eapply dfs_sound; eauto).
+    assert (HRx : MReach T w m x).
+    { destruct HRmv as (xm0 & Hxm0 & Hr0). exists xm0. split; [exact Hxm0|]. eapply reach_trans; eauto. }
+    destruct (path_of_spec T w m x nx HT Hnx HRx) as (_ & Hps2). destruct (Hps2 _ _ Hpx) as (_ & Hif).
+    destruct (identifiable T w x) eqn:Eix; [|discriminate Hif]. destruct Hif as (p0 & [= <-] & Hspx).
+    exists x. split; [|split].
+    - apply (i4_exact _ _ _ H4 m xm Hxm). split; [exact HRx|]. split; assumption.
+    - exact Hrx.
+    - eapply below_old_form; eauto. }
+  assert (Hfresh : forall k k', In k (keys (m_idents xm)) -> rekey src dest k = Some k' -> ~ In k' (keys (m_idents xm))).
+  { eapply rekey_fresh; eauto.
+    - exact (i4_exact _ _ _ H4 m).
+    - unfold dest. intros Enil. apply app_eq_nil in Enil as (_ & Enil). discriminate Enil. }
+  set (kf := fun k : list N => option_map (app dest) (strip_prefix src k)).
+  assert (Hkf : forall k k', In k (map fst orig) -> kf k = Some k' -> rekey src dest k = Some k').
+  { intros k k' Hk Hkk. destruct (Htodo k Hk) as (x & _ & _ & (suf & -> & Hb)).
+    unfold kf in Hkk. rewrite strip_prefix_app in Hkk. cbn in Hkk. injection Hkk as <-.
+    apply rekey_some. exists suf. auto. }
+  set (inner := fun (p' : list N) => fix upd_refs (rl : list id) : W unit :=
+         match rl with
+         | [] => wret tt
+         | re :: rr => (raw_set_character_data T check_fn re (DString p') version;; upd_refs rr)%W
+         end).
+  match type of Eloop with _ = Val (OK ?u, _) => destruct u end.
+  match type of Eloop with ?each _ ?w4 = Val (_, ?w5) =>
+    destruct (outer_sem_g m kf each inner) with (todo := map fst orig) (wc := w4) (w' := w5)
+      (xc := set_idents xm (fold_left (rekey_step src dest) (map fst (m_idents xm)) (m_idents xm)))
+      as (HF & HN) end.
+  { intros p' rl wa wb Hi. exact (inner_sem_move (inner p') p' version eq_refl (fun _ _ => eq_refl) rl wa wb Hi). }
+  { reflexivity. }
+  { intros k rr. unfold kf. destruct (strip_prefix src k); reflexivity. }
+  { intros k k' k2 Hk Hkk Hk2 Hk2n Heq. subst k2.
+    destruct (Htodo k Hk) as (x & Hgx & _ & _). destruct (Htodo k' Hk2) as (x2 & Hgx2 & _ & _).
+    eapply (Hfresh k k'); [eapply assoc_get_some_key; eauto|apply Hkf; assumption|eapply assoc_get_some_key; eauto]. }
+  { unfold model_at. cbn [w_models]. rewrite M1, Hw2m. eapply list_set_nth_eq. exact Hxm. }
+  { cbn [set_idents m_origins]. intros k1 k2 k1' k2' l1 l2 rf I1 I2 Hne12 R1 R2 L1 L2 Q1 Q2.
+    destruct (i5_exact _ _ H5 m xm Hxm k1) as (_ & X1). destruct (i5_exact _ _ H5 m xm Hxm k2) as (_ & X2).
+    assert (Y1 : RefSet T w m k1 rf) by (apply X1; unfold origins_of; rewrite L1; exact Q1).
+    assert (Y2 : RefSet T w m k2 rf) by (apply X2; unfold origins_of; rewrite L2; exact Q2).
+    destruct Y1 as (_ & Y1). destruct Y2 as (_ & Y2). congruence. }
+  { exact Eloop. }
+  cbn [set_idents m_origins w_nodes] in HN.
+  destruct HF as (_ & _ & _ & HFm & _).
+  destruct (HFm (set_idents xm (fold_left (rekey_step src dest) (map fst (m_idents xm)) (m_idents xm))))
+    as (x' & Hx' & _ & _ & Hid').
+  { unfold model_at. cbn [w_models]. rewrite M1, Hw2m. eapply list_set_nth_eq. exact Hxm. }
+  cbn [set_idents m_idents] in Hid'.
+  (* a node that carries a reference text is none of the four nodes the move itself writes *)
+  assert (Hrefnode : forall rf p, ref_text T w rf = Some p -> rf <> src_parent /\ rf <> mv /\ rf <> s /\ rf <> self).
+  { intros rf p Hr. repeat split; intros ->.
+    - destruct (ref_text_content w _ p pn Hr Hpn) as (Hc & _). rewrite Hc in Eidx. cbn in Eidx. discriminate Eidx.
+    - destruct (ref_text_content w _ p mn Hr Hmn) as (Hc & _). congruence.
+    - destruct (ref_text_content w _ p sn Hr Hsn) as (_ & Hc). unfold isref in Hc. rewrite Hsref in Hc. discriminate Hc.
+    - destruct (ref_text_content w _ p n Hr Hn) as (_ & Hc). rewrite (Hselfref n Hn) in Hc. discriminate Hc. }
+  assert (Hpre : forall rf p, ref_text T w rf = Some p -> w_nodes w1 rf = w_nodes w rf).
+  { intros rf p Hr. destruct (Hrefnode rf p Hr) as (R1 & R2 & R3 & R4).
+    rewrite M4; [apply Hw2n; assumption|]. intros s0 rest1 [= <- _]. exact R3. }
+  exists src, dest, xm, x'. split; [exact Hsp|]. split; [exact Hxm|]. split; [exact Hx'|].
+  split; [intros k2 e; rewrite Hid'; apply Hget|]. split.
+  - intros rf p x Hr HRr Hgx Hrx.
+    pose proof (proj1 (i4_exact _ _ _ H4 m xm Hxm p x) Hgx) as (HRx & Hidx & Hspx).
+    destruct (below_old_form T w m mv x src p HT Hsp Hrx Hspx) as (suf & -> & Hb).
+    exists suf. split; [reflexivity|].
+    (* the key is in the snapshot *)
+    assert (Hin_todo : In (src ++ suf) (map fst orig)).
+    { unfold identifiable in Hidx. destruct (w_nodes w x) as [nx|] eqn:Hnx; [|discriminate Hidx].
+      assert (Hnmd : is_named T (n_type nx) = Val true).
+      { unfold identifiable_n in Hidx. apply andb_true_iff in Hidx as (Hnm & _). unfold named in Hnm.
+        destruct (is_named T (n_type nx)) as [[|]| |]; try discriminate Hnm. reflexivity. }
+      assert (Hxi : In x ids) by (eapply dfs_covers; [apply reach_creach; exact Hrx|exact Edfs]).
+      destruct (named_paths_val w ids orig Enp x nx Hxi Hnx Hnmd) as (r0 & Hr0).
+      destruct (path_of_spec T w m x nx HT Hnx HRx) as (_ & Hps2). destruct (Hps2 _ _ Hr0) as (_ & Hif).
+      assert (Hidx2 : identifiable T w x = true) by (unfold identifiable; rewrite Hnx; exact Hidx).
+      rewrite Hidx2 in Hif. destruct Hif as (p0 & -> & Hsp0).
+      destruct (specpath_fun T w m m x _ _ HT Hspx Hsp0) as (_ & <-).
+      change (src ++ suf) with (fst (src ++ suf, x)). apply in_map.
+      eapply named_paths_covers; eauto. }
+    assert (Hkfp : kf (src ++ suf) = Some (dest ++ suf)) by (unfold kf; rewrite strip_prefix_app; reflexivity).
+    destruct (i5_exact _ _ H5 m xm Hxm (src ++ suf)) as (_ & X).
+    assert (Hin_r : In rf (origins_of xm (src ++ suf))) by (apply X; split; assumption).
+    unfold origins_of in Hin_r. destruct (assoc_get (src ++ suf) (m_origins xm)) as [l|] eqn:El; [|destruct Hin_r].
+    destruct (Hrefnode rf _ Hr) as (_ & _ & _ & Rself).
+    destruct (HN rf) as [(k & k' & l0 & G1 & G2 & G3 & G4 & G5)|(G1 & _)].
+    + destruct (i5_exact _ _ H5 m xm Hxm k) as (_ & Xk).
+      assert (Yk : RefSet T w m k rf) by (apply Xk; unfold origins_of; rewrite G3; exact G4).
+      destruct Yk as (_ & Yk). assert (k = src ++ suf) by congruence. subst k.
+      assert (k' = dest ++ suf) by congruence. subst k'.
+      rewrite (Hpre rf _ Hr) in G5.
+      assert (Hnr : exists nr, w_nodes w rf = Some nr).
+      { unfold ref_text in Hr. destruct (w_nodes w rf) as [nr|]; [eauto|discriminate]. }
+      destruct Hnr as (nr & Enr). rewrite Enr in G5. cbn [option_map] in G5.
+      apply (ref_text_rewritten T w _ rf nr (src ++ suf) (dest ++ suf) Enr Hr).
+      cbn [w_nodes]. rewrite upd_neq by exact Rself. exact G5.
+    + exfalso. eapply (G1 (src ++ suf) (dest ++ suf) l); eauto.
+  - intros rf p Hr Hcase. destruct (Hrefnode rf _ Hr) as (_ & _ & _ & Rself).
+    destruct (HN rf) as [(k & k' & l0 & G1 & G2 & G3 & G4 & G5)|(_ & G2)].
+    + exfalso. destruct (i5_exact _ _ H5 m xm Hxm k) as (_ & Xk).
+      assert (Yk : RefSet T w m k rf) by (apply Xk; unfold origins_of; rewrite G3; exact G4).
+      destruct Yk as (Yr & Yk). assert (k = p) by congruence. subst k.
+      pose proof (Hkf p k' G1 G2) as Hrk.
+      destruct Hcase as [Hc|Hc]; [contradiction|congruence].
+    + rewrite <- Hr. apply ref_text_node. cbn [w_nodes]. rewrite upd_neq by exact Rself.
+      rewrite G2. cbn [w_nodes]. exact (Hpre rf p Hr).
 Qed.
 
 End Move.
